@@ -232,6 +232,10 @@ fn apply_bstep(b: DefaultBuilder, s: &BStep) -> DefaultBuilder {
             let mut st = MockStorage::new();
             st.set(b"marker", &[*m, 1]);
             st.set(b"doomed", b"removed by the init function");
+            if *m % 2 == 1 {
+                // the supplied storage may well hold state of another chain: length-prefixed namespaces
+                st.set(b"\x00\x05otherkey", b"foreign module state");
+            }
             b.with_storage(st)
         }
         BStep::Block(h) => b.with_block(block_of(*h)),
